@@ -8,6 +8,7 @@ import pandas as pd
 from scipy.stats import norm
 
 from common import fx, unfx, dec_list, close
+from props import calc2
 
 REQUIRED = ['rr_def', 'rd_def', 'or_def', 'nnt_def', 'nnt_limits', 'irr_def', 'ird_def', 'acr_def', 'paf_def',
             'rr_reject_iff', 'rd_reject_iff', 'or_reject_iff', 'nnt_reject_iff', 'irr_reject_iff', 'ird_reject_iff',
@@ -15,7 +16,11 @@ REQUIRED = ['rr_def', 'rd_def', 'or_def', 'nnt_def', 'nnt_limits', 'irr_def', 'i
             'ird_swap', 'crosstab_filter', 'missing_counts', 'frame_eq_counts', 'rates_eq_counts',
             'personTime_complete', 'riskratio_level_generated', 'riskdifference_level_generated', 'nnt_level_generated',
             'oddsratio_level_generated', 'irr_level_generated', 'ird_level_generated', 'risk_level_generated',
-            'rate_level_generated', 'missing_generated', 'frame_generated_eq_counts']
+            'rate_level_generated', 'missing_generated', 'frame_generated_eq_counts',
+            # Props/C07_Diag.lean: Sensitivity / Specificity / Diagnostics (Gen/Diag.lean)
+            'sensitivity_fit_generated', 'specificity_fit_generated', 'diagnostics_fit_generated', 'diag_complete_rows',
+            'sensitivity_class_value', 'specificity_class_value', 'sensitivity_class_not_textbook',
+            'specificity_class_not_textbook']
 RULE = ('count tables: exhaustive over cells 1..B (B=5 quick, 9 thorough) for the six 4-argument calculators, plus a '
         'malformed stream (zero / negative cells in every position) and random large tables; frames: random data '
         'frames with 2-4 exposure levels, every reference level, random missingness in exposure/outcome/time. '
@@ -338,6 +343,7 @@ def run(chk, drv, rng, tier):
         for ref in refs:
             for cls in CLASSES:
                 check_frame(chk, drv, cls, df, int(ref), alpha, zs[alpha], positional=bool(rng.integers(0, 2)))
+    calc2.stream_c07(chk, drv, rng, tier)
 
 
 def replay(rec):
@@ -351,7 +357,10 @@ def replay(rec):
         print('replaying:', f['what'], {k: v for k, v in c.items() if k not in ('frame', 'impl')})
         alpha = c.get('alpha', 0.05)
         z = float(norm.ppf(1 - alpha / 2))
-        if 'fn' in c and 'args' in c:
+        if isinstance(c.get('replay'), dict):
+            with common.quiet():
+                calc2.CELLS[c['replay']['cell']](chk, None, **c['replay']['kwargs'])
+        elif 'fn' in c and 'args' in c:
             check_table(chk, None, c['fn'], tuple(c['args']), alpha, z)
         elif 'table' in c:
             relations(chk, *c['table'], alpha)
